@@ -3,9 +3,13 @@
 // subscripts); CVode* follow a script installed by the test driver (see sundials_shim.cpp).
 #ifndef NAUNET_VERIF_SUNDIALS_SHIM_H
 #define NAUNET_VERIF_SUNDIALS_SHIM_H
+// Like the real headers, this one brings in <stdio.h> and the fixed-width / size types only: neither <math.h> nor <stdlib.h>.
+// A generated file that calls a mathematical function has to include <math.h> itself, and which `abs`, `pow` … overloads it
+// sees is decided by its own include lines.
 #include <stdio.h>
-#include <stdlib.h>
-#include <math.h>
+#include <stddef.h>
+#include <stdint.h>
+#include <float.h>
 
 typedef double realtype;
 typedef long sunindextype;
